@@ -17,7 +17,8 @@ RULE = ("histories: one data set entered (a) at construction, (b) by fill one va
         "checked by the per-call delta monitor and find_bin agreement, final states of all paths are compared; "
         "non-trivial = >= 2 entry paths compared, >= 1 value outside the bins, >= 1 value on / one ulp beside an edge The ND construction path is entered through h(..., keep_missed=) and from_calculate_frequencies; the flag the histogram reports and the missed weight are compared with fill / fill_n.")
 ASSUMPTIONS = [
-    "exact comparison for int64/float64 contents with dyadic weights; statistics are not part of C03's comparison",
+    "exact comparison for int64/float64 contents with dyadic weights; statistics are compared only where the statement speaks of them (tracking of missed values switched off: values outside the bins change nothing)",
+    "under / overflow of gapped bins are compared across entry paths like everything else: unknown (NaN) once a value fell into a gap, the exact weights otherwise",
     "fill(NaN) is judged against 'NaN is skipped' (known finding fill.nan_value, the only one left)",
 ]
 
